@@ -973,7 +973,7 @@ int main(int argc, char** argv) {
         if (nofork) { run_script(lines, std::cout); std::cout.flush(); continue; }
         pid_t pid = fork();
         if (pid == 0) {
-            alarm(20);
+            alarm(90);
             run_script(lines, std::cout);
             std::cout.flush();
             _exit(0);
